@@ -483,6 +483,9 @@ func (a *API) WalkOp(name string, nReplies int) ([]OpPath, *Walker, error) {
 		if f.Parent() != nil {
 			return true
 		}
+		if stdTransparent(f) {
+			return true // slices.Contains / Index / BinarySearch ... over a table: walked from their own source
+		}
 		// unexported in-package helpers are part of the operation; boolean predicates stay opaque ("pred")
 		obj := f.Object()
 		if obj == nil && f.Origin() != nil {
